@@ -1,7 +1,7 @@
 // Witness for known finding D30 (property C14): with the cutting-planes strategy the analyser walks the trail backwards
 // without a lower bound and panics with index out of range [-1] on
 //   -x2 +x1 +x3 +x4 >= 3 ; -x3 -x4 -x1 >= 2 ; min: 3 ~x1 +1 x2
-// (the same problem is solved correctly with the strategy off: optimum 1).
+// (the constraints are unsatisfiable: with the strategy off the answer is Unsat, as it should be).
 package main
 
 import (
